@@ -300,6 +300,59 @@ impl ExpiredKey<u8> for NKey {
     }
 }
 
+/// Key of the expiring-key world in its *fat* instantiation (`KeyExpTree<FKey, i32, i64>`):
+/// a 280-byte key, so that every "entries above N bytes take another path" threshold up to 256
+/// has an instantiation on either side of it. Same instrumentation as `SimKey`.
+#[derive(Clone, Copy, Debug)]
+pub struct FKey {
+    pub key: i32,
+    pub exp: i32,
+    pub id: u32,
+    pub pad: [u64; 33],
+}
+
+impl FKey {
+    #[inline]
+    pub fn from_sim(k: SimKey) -> FKey {
+        FKey { key: k.key, exp: k.exp, id: k.id, pad: [k.id as u64; 33] }
+    }
+    #[inline]
+    pub fn to_sim(&self) -> SimKey {
+        SimKey { key: self.key, exp: self.exp, id: self.id }
+    }
+}
+impl PartialEq for FKey {
+    fn eq(&self, o: &Self) -> bool {
+        callback();
+        monitor_raw(CB_CMP, self.id, self.exp, self.key);
+        monitor_raw(CB_CMP, o.id, o.exp, o.key);
+        self.key == o.key
+    }
+}
+impl Eq for FKey {}
+impl PartialOrd for FKey {
+    #[inline]
+    fn partial_cmp(&self, o: &Self) -> Option<Ordering> {
+        Some(self.cmp(o))
+    }
+}
+impl Ord for FKey {
+    #[inline]
+    fn cmp(&self, o: &Self) -> Ordering {
+        callback();
+        monitor_raw(CB_CMP, self.id, self.exp, self.key);
+        monitor_raw(CB_CMP, o.id, o.exp, o.key);
+        self.key.cmp(&o.key)
+    }
+}
+impl ExpiredKey<i32> for FKey {
+    #[inline]
+    fn expiration(&self) -> i32 {
+        callback();
+        self.exp
+    }
+}
+
 /// What a comparator closure does with the key it is handed.
 #[inline]
 pub fn closure_sees(k: &SimKey) {
